@@ -17,7 +17,7 @@ import xml.etree.ElementTree as ET
 from codec import canon_inst, text
 from proto import B, S, dbytes
 from gen.instances import Gen, concrete_classes
-from corr.agg_common import quiet, model_ok_err
+from corr.agg_common import blame_class, quiet, model_ok_err
 from framework import run_impl
 
 RULE = ("every concrete class as root: generated valid instances (strings over printable incl. & < > quotes "
@@ -172,7 +172,8 @@ def run(ctx):
         if r2[0] != "ok":
             ctx.violate("unclosed_empty_aggregate_no_end_tag" if empty_agg else "readback_rejected", case,
                         f"{case['cls']} ({case['form']}): the file the library wrote is rejected by its own reader",
-                        {"form": case["form"], "empty_aggregate": empty_agg, "cls": case["cls"]})
+                        {"form": case["form"], "empty_aggregate": empty_agg,
+                         "cls": case["cls"] if empty_agg else blame_class(inst)})
             continue
         hdr, back = r2[1]
         diffs = inst_equal(inst, back)
